@@ -18,7 +18,7 @@ const hOther2 = "uiris"
 func VerifC03_PlainTwoCoins() {
 	verifExpect("created", "claimed", "refunded", "refused")
 	e := newHEnv()
-	one, w := big.NewInt(1), verifPow2(64)
+	one, w := big.NewInt(1), verifAmt(64)
 	a1, a2 := verifIntIn("amt1", one, w), verifIntIn("amt2", one, w)
 	amount := sdk.NewCoins(sdk.Coin{Denom: hOther, Amount: a1}, sdk.Coin{Denom: hOther2, Amount: a2})
 	ts := uint64(1700000000)
@@ -43,8 +43,8 @@ func VerifC03_PlainTwoCoins() {
 	srv := NewMsgServerImpl(e.k)
 	if op == 0 {
 		// creation through the message server
-		e.bank.fund(sender, hOther, verifIntIn("wallet1", big.NewInt(0), verifPow2(66)))
-		e.bank.fund(sender, hOther2, verifIntIn("wallet2", big.NewInt(0), verifPow2(66)))
+		e.bank.fund(sender, hOther, verifIntIn("wallet1", big.NewInt(0), verifAmt(66)))
+		e.bank.fund(sender, hOther2, verifIntIn("wallet2", big.NewInt(0), verifAmt(66)))
 		id := types.GetID(sender, to, amount, lock)
 		dup := verifChoice("dup", 2) == 1
 		if dup {
@@ -85,7 +85,7 @@ func VerifC03_PlainTwoCoins() {
 		e.k.SetHTLC(e.ctx, h, id)
 	}
 	for i, d := range denoms {
-		esc := verifIntIn([]string{"escrow1", "escrow2"}[i], big.NewInt(0), verifPow2(66))
+		esc := verifIntIn([]string{"escrow1", "escrow2"}[i], big.NewInt(0), verifAmt(66))
 		e.bank.fund(mod, d, esc)
 		if state == types.Open {
 			verifAssume(esc.BigInt().Cmp(amts[i]) >= 0) // H5
@@ -140,7 +140,7 @@ func VerifC03_PlainTwoCoins() {
 func VerifC03_ClaimAnySecret() {
 	verifExpect("claimed", "refused")
 	e := newHEnv()
-	amt := verifIntIn("amt", big.NewInt(1), verifPow2(64))
+	amt := verifIntIn("amt", big.NewInt(1), verifAmt(64))
 	amount := sdk.NewCoins(sdk.Coin{Denom: hOther, Amount: amt})
 	ts := uint64(verifChoice("ts", 2)) * 1700000000
 	id := hID(7)
